@@ -30,7 +30,7 @@ struct keyrec { char key[KEYLEN]; long count; };
 struct shm {
   long execs, pruned, skipped, transitions, checks, max_depth, restarts, timeouts;
   volatile long heartbeat;
-  volatile int in_exec, done, deadline_hit, harness_error;
+  volatile int in_exec, done, deadline_hit, harness_error, cap_hit;
   char herr[400];
   int len; int choice[MAXD]; int n[MAXD]; char isdev[MAXD]; char lab[MAXD][LABLEN];
   int resume_len; int resume[MAXD];
@@ -187,6 +187,7 @@ void vx_log(const char *fmt, ...) {
   if (!replaying) return;
   va_list ap; va_start(ap, fmt); vfprintf(stderr, fmt, ap); va_end(ap);
 }
+void vx_note_cap(void) { S->cap_hit = 1; }
 void vx_tick_reset(void) { ticks = 0; }
 void vx_tick(const char *key) {
   if (++ticks > vx_tick_ceiling) { ticks = 0; vx_fail_abort(key ? key : "nontermination", "iteration tick ceiling %ld exceeded", vx_tick_ceiling); }
@@ -265,6 +266,16 @@ static void crash_key(const char *errfile, long from, int sig, char *key, size_t
         while (p[i] && p[i] != '\n' && i < 60) { if (p[i] == ' ' && ++sp == 3) break; if (p[i] >= '0' && p[i] <= '9') break; kind[6 + i] = p[i] == ' ' ? '_' : p[i]; i++; }
         memcpy(kind, "ubsan:", 6); kind[6 + i] = 0; have_kind = 1;
         if (!msg[0]) snprintf(msg, mlen, "%s", line);
+      }
+      if (!have_kind && (p = strstr(line, "WARNING: ThreadSanitizer: "))) {
+        p += strlen("WARNING: ThreadSanitizer: "); int i = 0;
+        while (p[i] && p[i] != '(' && p[i] != '\n' && i < 60) { kind[5 + i] = p[i] == ' ' ? '_' : p[i]; i++; }
+        while (i > 0 && kind[5 + i - 1] == '_') i--;
+        memcpy(kind, "tsan:", 5); kind[5 + i] = 0; have_kind = 1;
+        if (!msg[0]) snprintf(msg, mlen, "%s", line);
+      }
+      if (!func[0] && !strstr(line, " in ") && strstr(line, "/src/") && (p = strstr(line, "    #"))) {   /* TSan frame: "#0 func file:line" */
+        p = strchr(p + 5, ' '); if (p) { p++; int i = 0; while (p[i] && p[i] != ' ' && p[i] != '\n' && i < 90) { func[i] = p[i]; i++; } func[i] = 0; if (strncmp(func, "__", 2) == 0) func[0] = 0; }
       }
       if (!func[0] && (p = strstr(line, " in ")) && strstr(line, "/src/") && strstr(line, "    #")) {
         p += 4; int i = 0; while (p[i] && p[i] != ' ' && p[i] != '\n' && i < 90) { func[i] = p[i]; i++; } func[i] = 0;
@@ -411,7 +422,7 @@ int vx_main(int argc, char **argv, const char *prop, vx_body_fn body) {
   }
 
   /* merge */
-  long execs = 0, pruned = 0, skipped = 0, trans = 0, checks = 0, maxd = 0, restarts = 0, timeouts = 0; int dl = 0, alldone = 1;
+  long execs = 0, pruned = 0, skipped = 0, trans = 0, checks = 0, maxd = 0, restarts = 0, timeouts = 0; int dl = 0, alldone = 1, cap = 0;
   uint64_t *out = calloc(OUTSET * 8, sizeof(uint64_t)); long n_out = 0; long n_st = 0;
   for (int w = 0; w < W; w++) {
     struct shm *s = ALL[w];
@@ -419,6 +430,7 @@ int vx_main(int argc, char **argv, const char *prop, vx_body_fn body) {
     restarts += s->restarts; timeouts += s->timeouts; n_st += s->n_st;
     if (s->max_depth > maxd) maxd = s->max_depth;
     if (s->deadline_hit) dl = 1;
+    if (s->cap_hit) cap = 1;
     if (!s->done) alldone = 0;
     for (unsigned i = 0; i < OUTSET; i++) if (s->out[i]) set_insert(out, OUTSET * 8, &n_out, s->out[i]);
     for (int k = 0; k < s->nkeys; k++) { struct viol *v = get_viol(s->keys[k].key); if (v) v->count += s->keys[k].count; }
@@ -451,7 +463,7 @@ int vx_main(int argc, char **argv, const char *prop, vx_body_fn body) {
     snprintf(fn, sizeof fn, "%s.w%d.err", base, w);
     struct stat sb; if (stat(fn, &sb) == 0 && sb.st_size == 0) unlink(fn);
   }
-  int exhaustive = alldone && !dl && timeouts == 0 && !herr;
+  int exhaustive = alldone && !dl && !cap && timeouts == 0 && !herr;
   if (!herr && exhaustive && expect_outcomes > 0 && n_out < expect_outcomes) {
     herr = 1; snprintf(herrmsg, sizeof herrmsg, "vacuity guard: %ld distinct outcomes observed, harness expects at least %ld", n_out, expect_outcomes);
   }
@@ -461,9 +473,9 @@ int vx_main(int argc, char **argv, const char *prop, vx_body_fn body) {
   fprintf(o, "{\"property\":"); json_str(o, property);
   fprintf(o, ",\"tier\":\"%s\",\"seed\":%ld,\"workers\":%d,\"executions\":%ld,\"pruned\":%ld,\"skipped_other_shard\":%ld,"
              "\"transitions\":%ld,\"checks\":%ld,\"states\":%ld,\"distinct_outcomes\":%ld,\"max_depth\":%ld,\"restarts\":%ld,"
-             "\"timeouts\":%ld,\"deadline_hit\":%s,\"exhaustive\":%s,\"dev_bound\":%d,\"wall_s\":%.3f,\"harness_error\":",
+             "\"timeouts\":%ld,\"deadline_hit\":%s,\"cap_hit\":%s,\"exhaustive\":%s,\"dev_bound\":%d,\"wall_s\":%.3f,\"harness_error\":",
           thorough ? "thorough" : "quick", seed, W, execs, pruned, skipped, trans, checks, n_st > 0 ? n_st : execs, n_out, maxd, restarts,
-          timeouts, dl ? "true" : "false", exhaustive ? "true" : "false", dev_bound, now_s() - t0);
+          timeouts, dl ? "true" : "false", cap ? "true" : "false", exhaustive ? "true" : "false", dev_bound, now_s() - t0);
   if (herr) json_str(o, herrmsg[0] ? herrmsg : "worker exited with harness error"); else fprintf(o, "null");
   fprintf(o, ",\"describe\":{");
   for (int i = 0; i < ndesc; i++) { if (i) fputc(',', o); json_str(o, desc_k[i]); fputc(':', o); json_str(o, desc_v[i]); }
